@@ -198,6 +198,17 @@ class Ev:
             if name in ("as_mut_ptr", "as_ptr"): return [(P, Unknown("ptr"))]
         if path in ("core::ops::Index::index", "core::ops::IndexMut::index_mut") and isinstance(a0, Slice):
             r = s.sub(a0, args[1]); P.acc.append(("checked", name, a0, r, t["span"]["lo"])); return [(P, r)]
+        if name in ("min", "max", "abs_diff") and len(args) == 2 and isinstance(args[0], Poly) and isinstance(args[1], Poly) \
+                and (path.startswith("core::cmp::Ord::") or path.startswith("core::num::<impl usize>::") or path.startswith("core::cmp::")):
+            a, b2 = args
+            outs = []
+            for cond, small, big in ((Cond("<=", a - b2), a, b2), (Cond(">", a - b2), b2, a)):
+                d = decide(P.conds, cond)
+                if d is False: continue
+                Q = P.fork()
+                if d is None: Q.conds.append(cond)
+                outs.append((Q, {"min": small, "max": big, "abs_diff": big - small}[name]))
+            return outs
         if path == "core::mem::swap":
             x, y = args
             if isinstance(x, RefTo) and isinstance(y, RefTo):
@@ -490,6 +501,19 @@ def literal_ok(kind, fields, names, sym, conds):
     return True, ""
 
 
+def _zero_atoms(conds):
+    Z = set()
+    atoms = set(a for c in conds if c.poly is not None for mono in c.poly.t for a in mono)
+    for a in atoms:
+        if decide(conds, Cond("==", Poly.atom(a))) is True:
+            Z.add(a)
+    return Z
+
+
+def _drop_zero(p, Z):
+    return Poly({k: v for k, v in p.t.items() if not any(a in Z for a in k)})
+
+
 def r_layout(f):
     R = Result("R-LAYOUT")
     setup_layout(f)
@@ -552,6 +576,18 @@ def r_layout(f):
                 if what:
                     lits.append((okl, what))
                 knm = oc[1].kind.split("::")[-1]
+                if knm in ("TooDeeView", "TooDeeViewMut"):
+                    # exact extent: the cursors built over a view iterate its *whole* slice, so the slice must be exactly
+                    # (rows-1)*stride + cols long (0 for an empty view), not merely long enough
+                    vals = dict(zip(LAYOUT[oc[1].kind], oc[1].fields))
+                    dsl, c_, r_, st_ = vals.get("data"), vals.get("num_cols"), vals.get("num_rows"), vals.get("stride")
+                    if isinstance(dsl, Slice) and all(isinstance(x, Poly) for x in (c_, r_, st_)):
+                        Zs = _zero_atoms(P.conds)
+                        ln = _drop_zero(dsl.len(), Zs)
+                        want_len = _drop_zero((r_ - ONE) * st_ + c_, Zs)
+                        empty = (_drop_zero(r_, Zs) == ZERO) or decide(P.conds, Cond("==", r_)) is True
+                        okx = (empty and ln == ZERO) or (not empty and (ln == want_len or decide(saturate(P.conds), Cond("==", ln - want_len)) is True))
+                        lits.append((okx, "%s { data: %r } has extent %r (want exactly (rows-1)*stride+cols = %r%s)" % (knm, dsl, ln, want_len, ", 0 when empty" if empty else "")))
                 if knm in ("TooDeeView", "TooDeeViewMut") and b.name in ("view", "view_mut", "from_toodee"):
                     vals = dict(zip(LAYOUT[oc[1].kind], oc[1].fields))
                     okst = vals.get("stride") == sym["S"]
